@@ -689,7 +689,11 @@ func c07With(toks []c07Tok, i int, t ...c07Tok) []c07Tok {
 
 // Order names that are not documented sort orders. "first" is deliberately
 // absent: parse.Field documents it as the name of the default order.
-var c07BogusOrders = []string{"bogus", "Alpha", "NUM", "alphanum", "numeric", "a", "alpha2", "", "alpha ", "fixed", "fixed", "Fixed", "First", "desc", "ALPHA", "nu", "fixe", "fixedd"}
+// Order names that no reasonable implementation would accept. Plausible
+// aliases or case variants of the documented names ("numeric", "Alpha", "NUM",
+// "desc", ...) are deliberately NOT here: a tree that adds such an alias makes
+// it a known order (false alarm on a benign change, DESIGN.md 9.5).
+var c07BogusOrders = []string{"bogus", "zzqx", "alhpa", "nmu", "", "alpha ", "fixed", "fixed", "fixe", "fixedd", "qq7", "x", "@", "al pha"}
 
 func c07RejectGen(r *kit.Rand, i int) c07RejectCase {
 	for {
